@@ -58,7 +58,12 @@ func vTerminalCase() {
 	var rec *vCore
 	var flush *vFlushSink
 	var buffered *zapcore.BufferedWriteSyncer
-	coreKind := vrt.Choice("core", 6)
+	// where the options are installed: at construction, or later on an existing / derived / sugared logger
+	site := vrt.Choice("site", 4)
+	coreKind := 1
+	if site == 0 {
+		coreKind = vrt.Choice("core", 6)
+	}
 	thr := zapcore.Level(vrt.Int8("threshold")) // the level may be disabled
 	switch coreKind {
 	case 0:
@@ -98,7 +103,17 @@ func vTerminalCase() {
 	case 4:
 		opts = append(opts, WithPanicHook(vHook{"panic"}), WithFatalHook(vHook{"fatal"}))
 	}
-	log := New(core, opts...)
+	var log *Logger
+	switch site {
+	case 0:
+		log = New(core, opts...)
+	case 1:
+		log = New(core).WithOptions(opts...)
+	case 2:
+		log = New(core).With(Int("ctx", 1)).Named("n").WithOptions(opts...)
+	case 3:
+		log = New(core).Sugar().WithOptions(opts...).Desugar()
+	}
 	sug := log.Sugar()
 
 	// ---- front end
@@ -199,6 +214,9 @@ func vTerminalCase() {
 		vrt.Tag("recovered=" + fmt.Sprint(recovered))
 	}
 	events := vrt.EventsString()
+	vrt.Observe("events", events)
+	vrt.Observe("returned", returned)
+	vrt.Observe("exited", stub.Exited)
 	switch wantAction {
 	case "panic":
 		vrt.Assert("panic-action-ran", recovered != nil && fmt.Sprint(recovered) == "boom")
@@ -269,5 +287,5 @@ func vCount(s, sub string) int {
 	return n
 }
 
-//verif: prop=C06 bounds="one call at DPanic/Panic/Fatal through 9 front ends (Logger methods, Log, Check+Write, Sugared plain/f/w/ln/Logw, std-log bridge) x 6 cores (nop, threshold, arbitrary level set, sampler dropping everything, tee, JSON IO core over a BufferedWriteSyncer) x development on/off x hooks {unset, nil, no-op, Goexit, custom}; threshold any int8; process exit observed through zap's own exit stub"
+//verif: prop=C06 bounds="one call at DPanic/Panic/Fatal through 9 front ends (Logger methods, Log, Check+Write, Sugared plain/f/w/ln/Logw, std-log bridge) x 6 cores (nop, threshold, arbitrary level set, sampler dropping everything, tee, JSON IO core over a BufferedWriteSyncer) x development on/off x hooks {unset, nil, no-op, Goexit, custom} installed at construction (all cores) or later through WithOptions on an existing, a derived or a sugared logger (threshold core); threshold any int8; process exit observed through zap's own exit stub"
 func VC06Terminal() { vTerminalCase() }
